@@ -58,6 +58,13 @@ def san_closure(d, s):
     if fam == "any" and d.get("ty") == "Point":
         if fn == "rev":
             return "|p: Point| Point(p.1, p.0)"
+    if fam == "any" and d.get("ty") == "Cow<[i32]>":
+        if fn == "sort":
+            return "|mut v| { v.to_mut().sort(); v }"
+        if fn == "rev":
+            return "|mut v| { v.to_mut().reverse(); v }"
+        if fn == "take2":
+            return "|mut v| { v.to_mut().truncate(2); v }"
     if fam == "any":
         if fn == "sort":
             return "|mut v| { v.sort(); v }"
@@ -262,6 +269,8 @@ def default_src(d):
         return rust_str(v) + ".to_string()" if False else rust_str(v)
     if d["fam"] == "any" and d.get("ty") == "Point":
         return "Point(%d, %d)" % (v[0], v[1])
+    if d["fam"] == "any" and d.get("ty") == "Cow<[i32]>":
+        return "::std::borrow::Cow::Borrowed(&[%s])" % ", ".join(str(x) for x in v)
     if d["fam"] == "any":
         return "vec![%s]" % ", ".join(str(x) for x in v)
     raise KeyError(d["fam"])
